@@ -53,6 +53,21 @@ def _declared(c):
         pyr.reset_pyrates()
 
 
+DERIVED_EQ = {"op": "d/dt * x = k + u", "oq": "d/dt * z = v"}
+
+
+def _find_op(c, name):
+    for sub in (c.circuits or {}).values():
+        r = _find_op(sub, name)
+        if r is not None:
+            return r
+    for n in c.nodes.values():
+        for op in n.operators:
+            if op.name == name:
+                return op
+    return None
+
+
 def impl(case):
     import numpy as np
     import pyr
@@ -84,6 +99,13 @@ def impl(case):
             outs.append({"count": len(c.get_edges("all", "all"))})
         elif k == "collect_edges":
             outs.append({"count": len(c.collect_edges())})
+        elif k == "collect_edges_delay":
+            outs.append({"count": len(c.collect_edges(delay_info=True))})
+        elif k == "op_update":
+            # OperatorTemplate.update_template with an equation edit and no `variables`: a derived template is returned,
+            # the variables the new equation does not use are dropped from ITS dict only (fix D44)
+            _find_op(c, o[1]).update_template(name=o[1] + "_derived", equations=[DERIVED_EQ[o[1]]])
+            outs.append("done")
         elif k == "get_edge":
             try:
                 outs.append({"w": pyr.frac(c.get_edge(o[1], o[2])[3]["weight"])})
@@ -136,7 +158,8 @@ def gen_case(rng, maxlen):
     ops = []
     for n in oplist:
         lib = OPLIB[n]
-        ops.append(dict(name=n, defs=[[lib["state"], pos8(rng)]] + [[k, pos8(rng)] for k in lib["consts"]] + [[lib["inp"], "0"]]))
+        ops.append(dict(name=n, defs=[[lib["state"], pos8(rng)]] + [[k, pos8(rng)] for k in lib["consts"]] + [[lib["inp"], "0"]],
+                        dictform=[k for k in lib["consts"] if rng.random() < 0.4]))
     nodes = []
     for _ in range(rng.randint(1, 3)):
         nops = []
@@ -197,16 +220,18 @@ def gen_case(rng, maxlen):
         elif r < 0.28 and depth == 0:
             seq.append(["getitem", rng.choice(names)])
         elif r < 0.38:
-            seq.append([rng.choice(["get_edges", "collect_edges"])])
+            seq.append([rng.choice(["get_edges", "collect_edges", "collect_edges_delay"])])
         elif r < 0.44:
             es = circs[root]["edges"]
             e = rng.choice(es) if es and rng.random() < 0.85 else ["A/op/x", "Z/op/u", "1"]
             seq.append(["get_edge", e[0], e[1]])
         elif r < 0.52:
             seq.append(["to_yaml"])
-        elif r < 0.58:
+        elif r < 0.56:
             seq.append(["deepcopy"])
-        elif r < 0.66:
+        elif r < 0.6:
+            seq.append(["op_update", rng.choice(oplist)])
+        elif r < 0.67:
             ns = ["/".join(p) for p, _ in allnodes]
             seq.append(["update_template", [[rng.choice(ns) + "/op/x", rng.choice(ns) + "/op/u", pos8(rng)]]])
         elif r < 0.9:
@@ -256,7 +281,9 @@ def coq_case(case, outs):
         elif k in ("get_node_template", "getitem"):
             ops.append(f"MRead (QNodeTemplate {cpath(o[1])})")
             pys.append("PNodeOps None" if r["ops"] is None else "PNodeOps (Some " + clist([cstr(x) for x in r["ops"]]) + ")")
-        elif k in ("get_edges", "collect_edges"):
+        elif k == "op_update":
+            ops.append(f"MNewObject (OOp {cstr(o[1] + '_derived')} [] [])"); pys.append("PDone'")
+        elif k in ("get_edges", "collect_edges", "collect_edges_delay"):
             ops.append("MRead QEdges"); pys.append(f"PEdgeCount (Some {cnat(r['count'])})")
         elif k == "get_edge":
             ops.append(f"MRead (QEdge {cstr(o[1])} {cstr(o[2])})")
@@ -366,9 +393,9 @@ def check(ctx):
         for o in c["seq"]:
             kinds[o[0]] = kinds.get(o[0], 0) + 1
     write_evidence(ctx, evaluations=len(cases), distinct_nontrivial=len(nt),
-                   rule="random sequences of get_nodes / get_node_template / __getitem__ / get_edges / collect_edges / get_edge / to_yaml / deepcopy / "
-                        "update_template(edges) / get_run_func / get_jacobian_func / run (in_place=False, both vectorize settings) on templates of depth 0-2 "
-                        "with one OperatorTemplate object per name, shared NodeTemplate objects, per-node overrides and (20%) shared sub-circuit objects; "
+                   rule="random sequences of get_nodes / get_node_template / __getitem__ / get_edges / collect_edges (also delay_info=True) / get_edge / to_yaml / "
+                        "deepcopy / update_template(edges) / OperatorTemplate.update_template(equations) / get_run_func / get_jacobian_func / run (in_place=False, both vectorize settings) on templates of depth 0-2 "
+                        "with one OperatorTemplate object per name (constants partly declared in explicit dict form), shared NodeTemplate objects, per-node overrides and (20%) shared sub-circuit objects; "
                         "the template is measured (deep copy with cleared bookkeeping: parameter values, declared initial values, edge sums, to_yaml text, "
                         "own edge count) before, between and after; non-trivial = >= 2 operations and (a shared object or a hierarchy); distinct = canonical JSON",
                    samples=[dict(cases[-1], seq=cases[-1]["seq"][:6])] if cases else [],
@@ -382,4 +409,4 @@ def check(ctx):
                                  "(all generated derivatives are > 0, so a carried final state differs)"],
                    assumptions=["edge attribute dictionaries hold numbers only (collect_edges rewrites string-valued attributes of sub-circuit edges: not modelled)",
                                 "no extrinsic inputs; default backend; the vectorize-switch outcomes are those of circuits whose nodes all merge under vectorization",
-                                "OperatorTemplate.update_template / loading a derived template are not modelled"])
+                                "OperatorTemplate.update_template is modelled as the creation of one new object (MNewObject); loading a derived template from YAML is not exercised"])
